@@ -34,7 +34,7 @@ func c01(w *core.World, r *core.Report) {
 
 	r.Rule("R01.3", "every batcher of the sender is created on the connection parameter", 1)
 	if c != nil {
-		conn := param(c.main, "conn")
+		conn := paramOf(c.main, "client.Redis", "conn")
 		for _, g := range core.DeepFuncs(c.main) {
 			for _, s := range core.SitesNamed(g, false, "*Redis.NewBatcher") {
 				r.Check(conn != nil && isParam(conn)(s.Recv()), "sendCmdsBatch/NewBatcher", s.Pos(), "batcher created on something other than the sender's connection parameter")
